@@ -1,8 +1,9 @@
 (* C08 -- ants: at most `size` handlers run at once and timeouts bound the wait.
-   Only the property theorems; proofs in proofs/AntsProofs.v; model models/Ants.v.
+   Only the property theorems; proofs in proofs/AntsProofs.v and proofs/AntsPromptProofs.v; model
+   models/Ants.v, promptness predicates models/AntsPrompt.v.
    Quantified over every pool size N, options, handler behaviours and accepted event
    histories (all tie orders). *)
-From Got Require Import Base Ants AntsProofs.
+From Got Require Import Base Ants AntsProofs AntsPrompt AntsPromptProofs.
 Local Open Scope Z_scope.
 
 (* in every reachable state the number of running handler invocations -- including those of
@@ -55,15 +56,82 @@ Theorem ants_get2_bound_refuted :
 Proof. exact ants_get2_bound_refuted_l. Qed.
 Print Assumptions ants_get2_bound_refuted.
 
-(* PARTIAL.  Not proved here (full statement, DESIGN.md 5 C08):
-     ants_get2_bound_all_prompt :
-       under maximal progress, if every handler invocation in the history returns by
-       max(start, its ctx deadline) then at_blocked t = 0 for every task, hence Get2 unblocks
-       <= R*T after pickup.
-   What stands instead: ants_get2_accounting (the bound can only be exceeded by L <= B) and
-   ants_get2_bound_refuted (without the hypothesis it is exceeded); the all-prompt case is
-   covered by the correspondence check only (stream "all-prompt": the bound monitor must hold
-   outright and the replayed model reports B = 0 for every task). *)
+(* The positive half of the timing clause.  Hypotheses, all boolean/decidable:
+     an_fixed cfg     the code in /repo now (per-attempt result channel, fix d4c0a4b);
+     an_urg cfg       MAXIMAL PROGRESS: the clock advances by dt > 0 only when no instantaneous step
+                      (channel hand-off, handler return due now, select that can fire, deadline reached)
+                      is enabled.  The discrete-event driver of the check and the Go runtime under
+                      faketime (virtual time moves only when every goroutine is blocked) satisfy it
+                      by construction; on a real clock it is the idealisation "the pool's own
+                      bookkeeping takes no time".  Without it no timing bound holds at all;
+     an_all_prompt    EVERY handler invocation of the history (of every task, not only of k) returns
+                      no later than max(its start, the deadline of its attempt's ctx1): checked at each
+                      AnStart event of evs (models/AntsPrompt.v).
+   Over all pool sizes N, all options (T, R, discardOnBusy, onError) of all tasks, all behaviours, all
+   accepted event histories = all tie orders.  Conclusion, for every task k in the final state:
+     - its dispatcher was never blocked in sendInnerCallback for a positive duration (B = at_blocked = 0,
+       hence L = at_late = 0): when it wants to enqueue, innerCallbackChan has room at that same instant;
+     - if run() has returned (AnDone) the release wg.Done() happened at f <= pickup + R*T;
+     - if a worker picked the task up and run() has not returned yet (the dispatcher is in
+       sendInnerCallback or in its select) the clock is still <= pickup + R*T.
+   Proof idea (proofs/AntsPromptProofs.v): if the clock could advance with a dispatcher in
+   sendInnerCallback, the callback channel would be non-empty, so all N inner workers run handlers
+   returning in the future; being prompt, their deadlines lie in the future, so each belongs to a
+   distinct dispatcher waiting in its select: N + 1 dispatchers. *)
+Theorem ants_get2_bound_all_prompt :
+  forall cfg evs s k,
+    an_fixed cfg -> an_urg cfg = true ->
+    an_run cfg an_init evs = Some s -> an_all_prompt cfg an_init evs = true ->
+    let t := an_tk s k in
+    let bound := at_pickup t + Z.of_nat (ao_R (at_opts t)) * ao_T (at_opts t) in
+    at_blocked t = 0 /\ at_late t = 0 /\
+    (at_phase t = AnDone -> exists f, at_rel t = [f] /\ f <= bound) /\
+    (forall a c, at_phase t = AnEnq a c \/ at_phase t = AnWait a c -> an_now s <= bound).
+Proof. exact ants_get2_bound_all_prompt_l. Qed.
+Print Assumptions ants_get2_bound_all_prompt.
+
+(* the same in the property's words: "a task whose handler returns promptly once its context is
+   cancelled unblocks Get2 no later than R*T after a worker picked it up" (all handlers prompt,
+   maximal progress).  At every instant of every history: either the clock has not passed
+   pickup + R*T, or Get2 is unblocked (the AnGet2 step is enabled: wg.Wait() returns); the WaitGroup
+   opened at f <= pickup + R*T and no Get2 read is stamped before f. *)
+Theorem ants_get2_within_timeout :
+  forall cfg evs s k,
+    an_fixed cfg -> an_urg cfg = true ->
+    an_run cfg an_init evs = Some s -> an_all_prompt cfg an_init evs = true ->
+    let t := an_tk s k in
+    let bound := at_pickup t + Z.of_nat (ao_R (at_opts t)) * ao_T (at_opts t) in
+    (forall a c, at_phase t = AnEnq a c \/ at_phase t = AnWait a c -> an_now s <= bound) /\
+    (at_phase t = AnDone ->
+       an_step cfg s (AnGet2 k) <> None /\
+       exists f, at_rel t = [f] /\ f <= bound /\ forall g, In g (at_get2 t) -> f <= snd g).
+Proof. exact ants_get2_within_timeout_l. Qed.
+Print Assumptions ants_get2_within_timeout.
+
+(* the hypothesis on the scripted behaviours alone: if every behaviour of every task ever sent
+   honours its context (ab_honours: the handler returns when ctx1 is cancelled), every invocation
+   of the history is prompt, whatever the durations and the schedule ... *)
+Theorem ants_honouring_handlers_are_prompt :
+  forall cfg evs, an_sends_honour evs = true -> an_all_prompt cfg an_init evs = true.
+Proof. exact ants_honouring_handlers_are_prompt_l. Qed.
+Print Assumptions ants_honouring_handlers_are_prompt.
+
+(* ... hence the bound holds for every task *)
+Theorem ants_get2_bound_honouring :
+  forall cfg evs s k,
+    an_fixed cfg -> an_urg cfg = true ->
+    an_run cfg an_init evs = Some s -> an_sends_honour evs = true ->
+    let t := an_tk s k in
+    let bound := at_pickup t + Z.of_nat (ao_R (at_opts t)) * ao_T (at_opts t) in
+    at_blocked t = 0 /\
+    (forall a c, at_phase t = AnEnq a c \/ at_phase t = AnWait a c -> an_now s <= bound) /\
+    (at_phase t = AnDone -> exists f, at_rel t = [f] /\ f <= bound).
+Proof. exact ants_get2_bound_honouring_l. Qed.
+Print Assumptions ants_get2_bound_honouring.
+
+(* K1 stays an OPEN known finding: the hypothesis "all handlers prompt" cannot be weakened to "the
+   handlers of task k are prompt" (ants_get2_bound_refuted: there an_all_prompt is false because task 0
+   ignores its cancelled context). *)
 
 (* non-vacuity of the accounting hypotheses: the K1 history is accepted with urg = true, and its
    task 2 meets the accounting bound with equality: 10000 = 2016 + 1*1000 + 6984 *)
@@ -74,4 +142,26 @@ Example c08_nonvacuous :
 Proof.
   destruct ants_get2_bound_refuted_l as (s & H & _ & _ & H2 & H3 & _ & H5 & _). exists s.
   split; [exact H|split; [reflexivity|split; [exact H3|rewrite H2, H5; reflexivity]]].
+Qed.
+
+(* non-vacuity of the all-prompt theorem: N = 2, three tasks, every hypothesis of
+   ants_get2_bound_all_prompt holds (also the scripted one), two handlers run at once; task 0
+   (T = 1000, R = 2) times out cooperatively twice -- at 1000 its dispatcher decides on the deadline and
+   enqueues attempt 2 before the handler of attempt 1 has returned, at the same instant -- and is
+   released exactly at pickup + R*T = 2000 (the bound is tight); task 2 fails once and retries.
+   The K1 history is rejected by the hypothesis. *)
+Example c08_all_prompt_nonvacuous :
+  exists s, an_fixed an_ap_cfg /\ an_urg an_ap_cfg = true /\ an_N an_ap_cfg = 2%nat /\
+            an_run an_ap_cfg an_init an_ap_history = Some s /\
+            an_all_prompt an_ap_cfg an_init an_ap_history = true /\ an_sends_honour an_ap_history = true /\
+            an_maxrun s = 2%nat /\
+            (let t := an_tk s 0%nat in
+             at_phase t = AnDone /\ at_rel t = [2000] /\ at_blocked t = 0 /\
+             at_dec t = [(2%nat, (None, AnDeadline), 2000); (1%nat, (None, AnDeadline), 1000)] /\
+             at_pickup t + Z.of_nat (ao_R (at_opts t)) * ao_T (at_opts t) = 2000) /\
+            at_rel (an_tk s 1%nat) = [100] /\ at_pickup (an_tk s 2%nat) = 100 /\ at_rel (an_tk s 2%nat) = [200] /\
+            an_all_prompt an_k1_cfg an_init an_k1_history = false.
+Proof.
+  destruct ants_all_prompt_witness_l as (s & H1 & H2 & H3 & H4 & (A1 & A2 & A3 & A4 & A5 & A6) & (B1 & B2 & B3 & B4) & (C1 & C2 & C3 & C4 & C5)).
+  exists s. repeat split; auto; vm_compute; reflexivity.
 Qed.
